@@ -26,6 +26,7 @@ import (
 	"math/rand"
 	"sort"
 	"strings"
+	"sync"
 	"time"
 
 	abci "github.com/cometbft/cometbft/abci/types"
@@ -1013,4 +1014,80 @@ func firstDiff(a, b string) string {
 		lo = 0
 	}
 	return fmt.Sprintf("…%s  VERSUS  …%s", trunc(a[lo:], 260), trunc(b[lo:], 260))
+}
+
+// loopDeliverAll: every input goes through the REAL receive path — the packet commitment is written on the sending end,
+// a relayer's signed MsgRecvPacket is executed in a block (baseapp runTx -> IBC core RecvPacket -> transfer stack) — on
+// `instances` independent chains in parallel. The transaction must succeed (a panic or any other abort of the
+// enclosing transaction is what C14 forbids), core must have stored the acknowledgement, and the emulated envelope on a
+// branch of the same state must agree (acknowledgement bytes, verdict, stores).
+type loopInput struct {
+	Label string
+	Data  []byte
+}
+
+func loopDeliverAll(rep *Report, inputs []loopInput, instances int) {
+	lws := make([]*LoopWorld, instances)
+	errs := make([]error, instances)
+	var wg sync.WaitGroup
+	for i := range lws {
+		wg.Add(1)
+		go func(i int) {
+			defer wg.Done()
+			lws[i], errs[i] = NewLoopWorld()
+		}(i)
+	}
+	wg.Wait()
+	for _, e := range errs {
+		if e != nil {
+			rep.HarnessError("real receive path: fixture: %v", e)
+			return
+		}
+	}
+	for wi := range lws {
+		wg.Add(1)
+		go func(wi int) {
+			defer wg.Done()
+			lw := lws[wi]
+			for i := wi; i < len(inputs); i += len(lws) {
+				in := inputs[i]
+				if len(in.Data) == 0 {
+					continue // MsgRecvPacket.ValidateBasic refuses empty data: it never reaches a callback
+				}
+				o, err := lw.RunStep(LoopStep{Label: in.Label, Raw: in.Data})
+				if err != nil {
+					rep.HarnessError("real receive path: %s: %v", trunc(in.Label, 120), err)
+					return
+				}
+				rep.Count("real_path_deliveries", 1)
+				rep.Count("evaluations", 1)
+				sig := "real path: " + trunc(in.Label, 300)
+				replay := mustJSON(map[string]any{"real_path_data": string(in.Data)})
+				if o.RecvCode != 0 {
+					rep.Violate(Violation{Kind: "real-recv-transaction-aborted", Group: "real-path", Sig: sig, Replay: replay,
+						What: fmt.Sprintf("the relayer's MsgRecvPacket transaction FAILED (code %d: %s): the receive path aborted the enclosing transaction instead of returning an acknowledgement [%s]", o.RecvCode, trunc(o.RecvLog, 300), trunc(in.Label, 300))})
+					continue
+				}
+				if len(o.Ack) == 0 {
+					rep.Violate(Violation{Kind: "real-recv-no-acknowledgement", Group: "real-path", Sig: sig, Replay: replay,
+						What: fmt.Sprintf("the RecvPacket transaction succeeded but IBC core wrote NO acknowledgement (a nil acknowledgement is an asynchronous one: state committed, sender never answered) [%s]", trunc(in.Label, 300))})
+					continue
+				}
+				for _, m := range o.Mismatch {
+					if strings.HasPrefix(m, "acknowledgement differs") && !o.AckSuccess && !o.EmuSuccess {
+						// two refusals with different TEXT: repeatability of error text is C19's subject (KF-4), not C14's
+						rep.Count("real_path_refusal_text_differs_between_two_executions", 1)
+						continue
+					}
+					rep.Violate(Violation{Kind: "emulated-envelope-disagrees-with-real", Group: "real-path", Sig: sig, Replay: replay, What: m + " [" + trunc(in.Label, 300) + "]"})
+				}
+				if o.AckSuccess {
+					rep.Outcome("real-path-success-ack")
+				} else {
+					rep.Outcome("real-path-error-ack")
+				}
+			}
+		}(wi)
+	}
+	wg.Wait()
 }
